@@ -104,12 +104,31 @@ def drivers_fail(case):
                 name, maxdiff(got, want), case['rec_kind'])
         return None
 
+    def bare_sweeps(cg_, x_):
+        """a driver call followed by two more reverse sweeps of the same forward evaluation (unit seed): each returns the gradient"""
+        cg_.gradient(x_)
+        outs = []
+        for _ in range(2):
+            y_ = cg_.dependentFunctionList[0].x
+            if isinstance(y_, UTPM):
+                yb = y_.zeros_like()
+                yb.data[0] = 1.0
+            else:
+                yb = np.ones_like(np.asarray(y_, dtype=float))
+            cg_.pullback([yb])
+            xb = cg_.independentFunctionList[0].xbar
+            outs.append(np.array(xb.data[0, 0] if isinstance(xb, UTPM) else xb, dtype=float))
+        if not np.allclose(outs[0], outs[1], rtol=1e-12, atol=1e-12):
+            return np.full_like(outs[0], np.nan)
+        return outs[1]
+
     calls = []
     if case['scalar']:
         calls += [('gradient', lambda: cg.gradient(x), ref['J'][0]),
                   ('hessian', lambda: cg.hessian(x), ref['H'][0]),
                   ('hess_vec', lambda: cg.hess_vec(x, v), ref['H'][0] @ v),
-                  ('gradient-again', lambda: cg.gradient(x), ref['J'][0])]
+                  ('gradient-again', lambda: cg.gradient(x), ref['J'][0]),
+                  ('gradient-then-sweeps', lambda: bare_sweeps(cg, x), ref['J'][0])]
     else:
         calls += [('jacobian', lambda: cg.jacobian(x), ref['J']),
                   ('vec_jac', lambda: cg.vec_jac(w, x), w @ ref['J']),
